@@ -441,6 +441,14 @@ def sieveBlock (fb : FB) (s : State) : Option State := do
     else if (s.ltables.any fun t => ((t.bucket (2 * s.blkNo)).isNone ∨ (t.bucket (2 * s.blkNo + 1)).isNone)) then none
     else some { s with lo := lo, loPrev := loPrev }
 
+/-- `b` times `sieve_block(); next_block()` (what every caller does between two calls of `smooths`). -/
+def runBlocks (fb : FB) : Nat → State → Option State
+  | 0, s => some s
+  | b + 1, s => do
+    let s ← runBlocks fb b s
+    let s ← sieveBlock fb s
+    nextBlock s
+
 /-! ### smooths: "Now find factors" -/
 
 /-- the closure `is_factor(offset, pidx)` -/
@@ -526,29 +534,40 @@ def divideOut (p : Nat) : Nat → Nat → Nat → Option (Nat × Nat)
   | 0, _, _ => none
   | f + 1, c, e => if c % p = 0 then divideOut p f (c / p) (e + 1) else some (c, e)
 
-/-- `cofactor(fbase, x, facs, maxlarge, double)`; `tf` stands for `try_factor64` (Pollard rho / ECM,
-"not required to be accurate": not modelled, a parameter). Outer `none` = panic/hang, inner = `None`. -/
-def cofactor (primes : Array Nat) (x : Int) (facs : List Nat) (maxlarge : Nat) (double : Bool)
-    (tf : Nat → Option (Nat × Nat)) : Option (Option ((Nat × Nat) × List (Int × Nat))) := do
-  let factors0 : List (Int × Nat) := if x < 0 then [(-1, 1)] else []
-  let (cof, factors) ← facs.foldlM (fun (st : Nat × List (Int × Nat)) pidx => do
-    let pp ← primes[pidx]?                                           -- fbase.p(pidx)
-    let (c, e) ← divideOut pp 300 st.1 0
-    some (c, if e > 0 then st.2 ++ [((pp : Int), e)] else st.2)) (x.natAbs, factors0)
+/-- trial division by one listed prime: `(cofactor, factors)` after the inner loop. -/
+def cofactorStep (primes : Array Nat) (st : Nat × List (Int × Nat)) (pidx : Nat) : Option (Nat × List (Int × Nat)) := do
+  let pp ← primes[pidx]?                                             -- fbase.p(pidx)
+  let (c, e) ← divideOut pp 300 st.1 0
+  some (c, if e > 0 then st.2 ++ [((pp : Int), e)] else st.2)
+
+/-- the part of `cofactor` after the trial division. -/
+def cofactorTail (primes : Array Nat) (cof : Nat) (factors : List (Int × Nat)) (maxlarge : Nat) (double : Bool)
+    (tf : Nat → Option (Nat × Nat)) : Option (Option ((Nat × Nat) × List (Int × Nat))) :=
   if cof ≥ 2 ^ 64 then some none                                     -- try_into().ok()?
-  else do
-    if maxlarge * maxlarge ≥ 2 ^ 64 then none                          -- u64 overflow
-    if cof > maxlarge * maxlarge then some none
-    else do
-      let maxprime ← primes.back?
+  else if maxlarge * maxlarge ≥ 2 ^ 64 then none                     -- u64 overflow
+  else if cof > maxlarge * maxlarge then some none
+  else
+    match primes.back? with
+    | none => none                                                   -- bound(): unwrap
+    | some maxprime =>
       if double ∧ cof > maxprime * maxprime then
         match tf cof with
         | some (p, q) => if p > maxlarge ∨ q > maxlarge then some none else some (some ((p, q), factors))
         | none => some none
       else if cof > maxlarge then some none
-      else do
-        let cc ← certainlyComposite cof
-        if cc then none                                              -- debug_assert!(!certainly_composite)
-        else some (some ((cof, 1), factors))
+      else
+        match certainlyComposite cof with
+        | none => none
+        | some cc =>
+          if cc then none                                            -- debug_assert!(!certainly_composite)
+          else some (some ((cof, 1), factors))
+
+/-- `cofactor(fbase, x, facs, maxlarge, double)`; `tf` stands for `try_factor64` (Pollard rho / ECM,
+"not required to be accurate": not modelled, a parameter). Outer `none` = panic/hang, inner = `None`. -/
+def cofactor (primes : Array Nat) (x : Int) (facs : List Nat) (maxlarge : Nat) (double : Bool)
+    (tf : Nat → Option (Nat × Nat)) : Option (Option ((Nat × Nat) × List (Int × Nat))) := do
+  let factors0 : List (Int × Nat) := if x < 0 then [(-1, 1)] else []
+  let (cof, factors) ← facs.foldlM (cofactorStep primes) (x.natAbs, factors0)
+  cofactorTail primes cof factors maxlarge double tf
 
 end Ymq.Sieve
